@@ -44,9 +44,17 @@ struct Model {
     std::vector<Param> params; bool fnInstalled = false; int indent = -1; std::string encoding; int meta = 0, escape = 0; bool validation = false; bool trace = false;
 };
 
-void applyModel(XEnv& e, const Model& m, CountingTrace& tl) {
+// kind "node": the document element of a parsed source as a node-set parameter; value = "<document index>/<0|1 Xerces DOM>".
+// On the reference transformer the same bytes are parsed the same way (the handle lives as long as the transformer).
+void applyModel(XEnv& e, const Model& m, CountingTrace& tl, const Json* plan = nullptr) {
     xercesc::MemoryManager& mm = e.manager();
-    applyParams(*e.T, m.params, mm);
+    std::vector<Param> plain; for (auto& q : m.params) if (q.kind != "node") plain.push_back(q);
+    applyParams(*e.T, plain, mm);
+    for (auto& q : m.params) if (q.kind == "node" && plan) {
+        int di = atoi(q.value.c_str()); bool xer = q.value.size() > 2 && q.value[q.value.size() - 1] == '1';
+        SimIStream is(plan->at("docs").a[di].s, SrcFault()); XSLTInputSource in(&is, mm); in.setSystemId(xs(std::string(SIM_BASE) + "doc.xml", mm).c_str());
+        const XalanParsedSource* ps = nullptr; if (e.T->parseSource(in, ps, xer) == 0 && ps && ps->getDocument()) e.T->setStylesheetParam(xs(q.name, mm), (XalanNode*)ps->getDocument()->getDocumentElement());
+    }
     if (m.fnInstalled) e.T->installExternalFunction(xs("urn:x-ext", mm), xs("sq", mm), FunctionSq());
     if (m.indent >= 0) e.T->setIndent(m.indent);
     if (!m.encoding.empty()) e.T->setOutputEncoding(xs(m.encoding, mm));
@@ -140,6 +148,7 @@ struct C06 : public Driver {
                 else if (f == 4 && res.size()) { Json rf = Json::object(); rf["name"] = res.o[gh.below(res.o.size())].first; rf["kind"] = gh.chance(1, 2) ? "missing" : "throwing"; o["resFault"] = rf; }
                 else if (f == 5) { o["fnFailAt"] = (long long)(1 + gh.below(30)); }
             }
+            else if (r < 29 && gh.chance(1, 4)) { Json& o = op("param"); o["name"] = "N"; o["kind"] = "node"; o["psi"] = (int)gh.below(5); o["value"] = ""; }     // a node of a parsed source that is alive (no-op when there is none)
             else if (r < 29) { Json& o = op("param"); static const std::vector<std::string> nm = { "P1", "P2", "Q" }; o["name"] = gh.pick(nm); unsigned k = (unsigned)gh.below(4);
                 if (k == 0) { o["kind"] = "number"; o["value"] = std::to_string(gh.range(-5, 500)); } else if (k == 1) { o["kind"] = "string"; unsigned q = (unsigned)gh.below(8); o["value"] = q == 0 ? std::string("abort") : q == 1 ? std::string("badkey") : q < 4 ? "n" + std::to_string(gh.below(12)) : "s" + std::to_string(gh.below(100)); if (q < 4) o["name"] = "P1"; }
                 else if (k == 2) { o["kind"] = "expr"; static const std::vector<std::string> ex = { "1 + 2", "'lit'", "concat('a','b')", "7 div 2", "true()" }; o["value"] = gh.pick(ex); }
@@ -213,7 +222,7 @@ struct C06 : public Driver {
         {
             XEnv env(&mm); Live live; xercesc::MemoryManager& M = env.manager();
             for (auto& kv : plan.at("resources").o) env.fs.put(kv.first, kv.second.s);
-            const Json& ops = plan.at("ops"); std::string prevOutcome = "start";
+            const Json& ops = plan.at("ops"); std::string prevOutcome = "start"; const XalanParsedSource* nodeParamSrc = nullptr;
             for (size_t i = 0; i < ops.a.size(); ++i) {
                 const Json& o = ops.a[i]; std::string k = o.str("op"); std::string outcome = k;
                 XformOut ex;
@@ -233,7 +242,7 @@ struct C06 : public Driver {
                         // reference: a fresh transformer with the model's settings
                         g_clock.reset();
                         XformOut b; uint64_t cbCalls = 0;
-                        { XEnv fresh; for (auto& kv : plan.at("resources").o) fresh.fs.put(kv.first, kv.second.s); CountingTrace tlF; applyModel(fresh, model, tlF);
+                        { XEnv fresh; for (auto& kv : plan.at("resources").o) fresh.fs.put(kv.first, kv.second.s); CountingTrace tlF; applyModel(fresh, model, tlF, &plan);
                           // the reference uses the same byte material the handles of T were built from
                           Json o2 = o; if (o.str("src") == "parsed" && !live.sources.empty()) { auto& t = live.sources[o.num("psi") % live.sources.size()]; o2["doc"] = std::get<1>(t); o2["xerces"] = std::get<2>(t); o2["prebuiltPs"] = true; }
                           if (o.str("ss") == "compiled" && !live.sheets.empty()) { auto& t = live.sheets[o.num("csi") % live.sheets.size()]; o2["sheet"] = t.second; o2["prebuiltCs"] = true; }
@@ -248,9 +257,13 @@ struct C06 : public Driver {
                         else if (a.status != 0 && a.errEmpty != b.errEmpty) res.violate("error-message-differs", sigBase, "op#" + std::to_string(i) + ": error message empty=" + std::to_string(a.errEmpty) + " on the reused transformer, " + std::to_string(b.errEmpty) + " on a fresh one");
                         if (!a.ok() && i + 1 < ops.a.size() && ops.a[i + 1].str("op") == "transform") res.count("probe:abort-then-transform");
                         res.tag(prevOutcome + "->" + outcome);
+                    } else if (k == "param" && o.str("kind") == "node") {
+                        if (!live.sources.empty()) { auto& t = live.sources[o.num("psi") % live.sources.size()]; const XalanParsedSource* ps = std::get<0>(t);
+                            if (ps->getDocument() && ps->getDocument()->getDocumentElement()) { env.T->setStylesheetParam(xs("N", M), (XalanNode*)ps->getDocument()->getDocumentElement()); nodeParamSrc = ps;
+                                Param p{ "N", "node", std::to_string(std::get<1>(t)) + "/" + (std::get<2>(t) ? "1" : "0") }; bool found = false; for (auto& q : model.params) if (q.name == p.name) { q = p; found = true; } if (!found) model.params.push_back(p); res.count("probe:node-set-parameter"); } }
                     } else if (k == "param") { Param p{ o.str("name"), o.str("kind"), o.str("value") }; std::vector<Param> one{ p }; applyParams(*env.T, one, M);
                         bool found = false; for (auto& q : model.params) if (q.name == p.name) { q = p; found = true; } if (!found) model.params.push_back(p); }
-                    else if (k == "clear-params") { env.T->clearStylesheetParams(); model.params.clear(); }
+                    else if (k == "clear-params") { env.T->clearStylesheetParams(); model.params.clear(); nodeParamSrc = nullptr; }
                     else if (k == "install-fn") { env.T->installExternalFunction(xs("urn:x-ext", M), xs("sq", M), FunctionSq()); model.fnInstalled = true; }
                     else if (k == "uninstall-fn") { env.T->uninstallExternalFunction(xs("urn:x-ext", M), xs("sq", M)); model.fnInstalled = false; }
                     else if (k == "set") { std::string w = o.str("what"); int v = (int)o.num("value");
@@ -262,7 +275,9 @@ struct C06 : public Driver {
                     else if (k == "trace-add") { if (!model.trace) { env.T->addTraceListener(&tlT); model.trace = true; } }
                     else if (k == "trace-remove") { if (model.trace) { env.T->removeTraceListener(&tlT); model.trace = false; } }
                     else if (k == "destroy-ss") { if (!live.sheets.empty()) { size_t j = o.num("i") % live.sheets.size(); int st = env.T->destroyStylesheet(live.sheets[j].first); live.sheets.erase(live.sheets.begin() + j); if (st != 0) res.violate("destroy-failed", "stylesheet", "destroyStylesheet of a live handle returned " + std::to_string(st)); } }
-                    else if (k == "destroy-src") { if (!live.sources.empty()) { size_t j = o.num("i") % live.sources.size(); int st = env.T->destroyParsedSource(std::get<0>(live.sources[j])); live.sources.erase(live.sources.begin() + j); if (st != 0) res.violate("destroy-failed", "source", "destroyParsedSource of a live handle returned " + std::to_string(st)); } }
+                    else if (k == "destroy-src") { if (!live.sources.empty()) { size_t j = o.num("i") % live.sources.size();
+                        if (std::get<0>(live.sources[j]) == nodeParamSrc) { Param p{ "N", "expr", "/.." }; std::vector<Param> one{ p }; applyParams(*env.T, one, M); for (auto& q : model.params) if (q.name == "N") q = p; nodeParamSrc = nullptr; }   /* the caller's duty: the node outlives its use as a parameter */
+                         int st = env.T->destroyParsedSource(std::get<0>(live.sources[j])); live.sources.erase(live.sources.begin() + j); if (st != 0) res.violate("destroy-failed", "source", "destroyParsedSource of a live handle returned " + std::to_string(st)); } }
                     else if (k == "destroy-unknown") { int dummy = 0; int st = env.T->destroyStylesheet((const XalanCompiledStylesheet*)&dummy); const char* e = st ? env.T->getLastError() : ""; if (st == 0 || !e || !*e) res.violate("destroy-unknown-accepted", "stylesheet", "destroying an unknown handle returned " + std::to_string(st) + " / empty message"); }
                 }
                 SIM_CATCH_ALL(ex)
